@@ -510,7 +510,9 @@ def _run_routing(case, ctx):
         ctx.violation("psd_microporous/%s/cheng-yang-term-%s" % (model, "missing" if model.endswith("CY") else "applied"), "the equation solved is not the one of the requested model (Cheng-Yang correction)", model=model, geo=geo)
         return
     fn = pm.psd_horvath_kawazoe if model.startswith("HK") else pm.psd_horvath_kawazoe_ry
-    direct = _call(fn, p, loading, T, geo, adsd, mat, model.endswith("CY"))
+    # (the temperature as the isotherm holds it: a Celsius record returns 77.35500000000002 K, and the bounded minimiser
+    # of the Cheng-Yang variants is sensitive to the last bits)
+    direct = _call(fn, p, loading, iso.temperature, geo, adsd, mat, model.endswith("CY"))
     if direct[0] == "ok":
         same = all(numpy.allclose(numpy.asarray(x, dtype=float), numpy.asarray(y, dtype=float), rtol=1e-9, atol=1e-12) for x, y in zip(
             (res[1]["pore_widths"], res[1]["pore_distribution"], res[1]["pore_volume_cumulative"]), direct[1]))
